@@ -447,6 +447,11 @@ func (w *streamingResponseWriter) WriteHeader(status int) {
 	if w.wroteHeader {
 		return
 	}
+	if status >= 100 && status <= 199 && status != http.StatusSwitchingProtocols {
+		// Informational responses cannot be relayed through the proxy and
+		// must not be mistaken for the final response.
+		return
+	}
 	w.wroteHeader = true
 
 	// Initialize the response trailers.
